@@ -84,7 +84,7 @@ func runC09History(c *Ctx, idx int) {
 		stale := isStale(h)
 		before := stx.DirSnapshot(dir)
 		lbBefore := listBytes()
-		kinds := []string{"add", "add", "add", "newaddition", "compactall", "autocompact", "clean", "reopen", "add-big"}
+		kinds := []string{"add", "add", "add", "newaddition", "compactall", "autocompact", "clean", "reopen", "add-big", "commit-noauto", "commit-noauto", "compactrange", "add-while-locked"}
 		kind := kinds[rng.Intn(len(kinds))]
 		desc := fmt.Sprintf("h%d(stale=%v) %s", hi, stale, kind)
 		r.Evaluations++
@@ -99,7 +99,138 @@ func runC09History(c *Ctx, idx int) {
 			ui, err := stx.Apply(h, t)
 			return t, ui, err
 		}
+		if kind == "commit-noauto" && (stale || rng.Chance(0.3)) {
+			kind = "add" // through a stale handle (or sometimes) use the plain Add
+		}
+		if kind == "compactrange" && !haveCompactRange {
+			kind = "autocompact"
+		}
+		if kind == "add-while-locked" {
+			// another handle holds an open Addition (the write lock) while h adds: h's Add
+			// must fail with ErrLockFailure and change nothing; once the holder abandons
+			// its Addition the handle must be refreshed and the retry must succeed.
+			var holder *reftable.Stack
+			for j, y := range handles {
+				if j != hi && y != nil && !isStale(y) {
+					holder = y
+					break
+				}
+			}
+			if holder == nil {
+				kind = "add"
+			} else {
+				var hold *reftable.Addition
+				herr := rtx.Safe(func() error {
+					var e error
+					hold, e = holder.NewAddition()
+					return e
+				})
+				if herr != nil {
+					fail([]string{"C04"}, "fresh-newaddition-failed", fmt.Sprintf("NewAddition through an up-to-date handle failed: %v", herr))
+					return
+				}
+				beforeL := stx.DirSnapshot(dir)
+				id++
+				t := gen.GenTxn(rng, id, model, opts)
+				_, err := stx.Apply(h, t)
+				hc.Ops = append(hc.Ops, fmt.Sprintf("%s t%d while another handle holds the lock -> %v", desc, t.ID, err))
+				if err != reftable.ErrLockFailure {
+					rtx.Safe(func() error { hold.Close(); return nil })
+					fail([]string{"C09", "C04", "C08"}, "add-under-foreign-lock-"+okOrErr(err), fmt.Sprintf("Add while another handle holds tables.list.lock returned %v, want ErrLockFailure", err))
+					return
+				}
+				if !stx.SameSnapshot(beforeL, stx.DirSnapshot(dir)) || !bytes.Equal(lbBefore, listBytes()) {
+					rtx.Safe(func() error { hold.Close(); return nil })
+					fail([]string{"C09", "C16"}, "failed-add-under-foreign-lock-changed-directory", fmt.Sprintf("a failed Add changed the directory: %v -> %v", beforeL, stx.DirSnapshot(dir)))
+					return
+				}
+				rtx.Safe(func() error { hold.Close(); return nil })
+				// after the failed Add the handle has been refreshed (the property does not
+				// make this depend on why the Add failed)
+				var up bool
+				var uerr error
+				rtx.Safe(func() error { up, uerr = h.UpToDate(); return nil })
+				if uerr != nil || !up {
+					fail([]string{"C09"}, "not-refreshed-after-failed-add|foreign-lock", fmt.Sprintf("after an Add that failed on a held lock UpToDate() = %v, %v; handle %v, list %v", up, uerr, stx.Names(h), mustList(dir)))
+					return
+				}
+				ui2, err2 := stx.Apply(h, t)
+				hc.Ops = append(hc.Ops, fmt.Sprintf("h%d retry t%d -> ui=%d %v", hi, t.ID, ui2, err2))
+				if err2 != nil {
+					fail([]string{"C09"}, "retry-failed|foreign-lock|"+errClass(err2), fmt.Sprintf("immediate retry after the lock holder went away failed: %v %s", err2, PanicDetail(err2)))
+					return
+				}
+				if ui2 <= maxUI {
+					fail([]string{"C09"}, "retry-update-index-not-greater", fmt.Sprintf("retry used update index %d, committed max is %d", ui2, maxUI))
+					return
+				}
+				model.Apply(t, ui2)
+				maxUI = ui2
+				if stale {
+					r.Nontrivial(rep.Hash("c09", fmt.Sprint(c.Seed), fmt.Sprint(idx), fmt.Sprint(op)))
+					r.Count("stale_adds_under_foreign_lock", 1)
+				}
+				r.Count("adds_under_foreign_lock", 1)
+			}
+		}
 		switch kind {
+		case "add-while-locked":
+			// handled above
+		case "commit-noauto":
+			// NewAddition + Add + Commit: commits without the auto-compaction of Stack.Add,
+			// so tables of very different sizes can sit next to each other
+			id++
+			o := opts
+			o.Filler = []int{0, 0, 60, 200}[rng.Intn(4)]
+			t := gen.GenTxn(rng, id, model, o)
+			var ui uint64
+			err := rtx.Safe(func() error {
+				add, err := h.NewAddition()
+				if err != nil {
+					return err
+				}
+				defer add.Close()
+				ui = h.NextUpdateIndex()
+				if err := add.Add(func(w *reftable.Writer) error { return stx.WriteTxn(w, t, ui) }); err != nil {
+					return err
+				}
+				return add.Commit()
+			})
+			hc.Ops = append(hc.Ops, fmt.Sprintf("%s t%d -> ui=%d %v", desc, t.ID, ui, err))
+			if err != nil {
+				fail([]string{"C04"}, "fresh-commit-failed|"+errClass(err), fmt.Sprintf("NewAddition/Add/Commit through an up-to-date handle failed: %v %s", err, PanicDetail(err)))
+				return
+			}
+			if ui <= maxUI {
+				fail([]string{"C09", "C04"}, "update-index-not-greater", fmt.Sprintf("Commit used update index %d, committed max is %d", ui, maxUI))
+				return
+			}
+			model.Apply(t, ui)
+			maxUI = ui
+		case "compactrange":
+			n := len(stx.Names(h))
+			first, last := 0, 0
+			if n >= 2 {
+				first = rng.Intn(n - 1)
+				last = first + 1 + rng.Intn(n-first-1)
+			}
+			err := rtx.Safe(func() error { _, e := compactRange(h, first, last); return e })
+			hc.Ops = append(hc.Ops, fmt.Sprintf("%s [%d,%d] of %d -> %v", desc, first, last, n, err))
+			if rtx.IsPanic(err) {
+				fail(panicProps(stale), "compactrange-"+PanicSig(err), fmt.Sprintf("compactRange panicked: %s", PanicDetail(err)))
+				return
+			}
+			if stale {
+				if !unchanged() {
+					fail([]string{"C09"}, "stale-compactrange-changed-directory", fmt.Sprintf("compaction of [%d,%d] through a stale handle changed the directory: %v -> %v; list %q -> %q", first, last, before, stx.DirSnapshot(dir), lbBefore, listBytes()))
+					return
+				}
+				r.Nontrivial(rep.Hash("c09", fmt.Sprint(c.Seed), fmt.Sprint(idx), fmt.Sprint(op)))
+				r.Count("stale_compactrange", 1)
+			} else if err != nil {
+				fail([]string{"C04"}, "fresh-compactrange-failed|"+errClass(err), fmt.Sprintf("compaction through an up-to-date handle failed without contention: %v", err))
+				return
+			}
 		case "add", "add-big":
 			filler := 0
 			if kind == "add-big" {
